@@ -64,3 +64,29 @@ class Strict(Command):
     def execute(self, **kw):
         LOG.append(self.result_name)
         return None
+
+
+class Echo(Command):
+    """returns its cleaned arguments (serialisation round trips compare them)"""
+    inputs = {
+        "S": params.StringParameter(required=False),
+        "N": params.NumberParameter(required=False),
+        "B": params.BooleanParameter(required=False),
+        "L": params.ListParameter(params.NumberParameter(), required=False),
+        "LS": params.ListParameter(params.StringParameter(), required=False),
+        "LL": params.ListParameter(params.ListParameter(params.NumberParameter()), required=False),
+        "R": params.ResultParameter(required=False),
+        "RL": params.ListParameter(params.ResultParameter(), required=False),
+    }
+    output = params.Parameter()
+
+    def execute(self, **kw):
+        out = []
+        for k in sorted(kw):
+            v = kw[k]
+            if hasattr(v, 'result_name'):
+                v = ('ref', v.result_name)
+            elif isinstance(v, list):
+                v = [(('ref', x.result_name) if hasattr(x, 'result_name') else x) for x in v]
+            out.append((k, v))
+        return out
